@@ -23,11 +23,6 @@ import FcProofs.Lemmas.PrefixW
 namespace Fc
 open Fc.W
 
-/-- a status that makes a comparison fail when no `--ignore-missing-*` flag is given -/
-def failingStatus : FStatus → Bool
-  | .failed | .error | .missingSource | .missingReference => true
-  | .passed | .filtered => false
-
 /-- **C18 (nothing leaves the entry point).** For every reader outcome of either file (I/O error, any other
     exception class), every comparison outcome and every flag setting, `_run` returns an exit code (0 or 1):
     the exception classes the readers raise are all caught by `except IOError` / `except Exception`. -/
